@@ -883,7 +883,7 @@ func worker(c *core.Ctx, args []string) {
 
 // colliding1: clients of one broker juggle two channels whose ssids share one bucket of the per-peer subscription
 // counters on the other broker (equal xor-fold); four client operations reach "first one gone, then the other".
-var colliding1 = Config{Name: "2-brokers-colliding-one-side", N: 2, ClientOps: 4, Ticks: 0, Depth: 8, Filters: []string{"a/b/", "b/a/"}, OnlyOn: []int{0}}
+var colliding1 = Config{Name: "2-brokers-colliding-one-side", N: 2, ClientOps: 4, Ticks: 0, Depth: 8, Filters: []string{"a/b/", "b/a/"}, OnlyOn: []int{0}, Names: []int{255, 1}}
 
 func configs(quick bool) []Config {
 	if quick {
